@@ -318,6 +318,9 @@ func (c *crawlGen) seed(cfg *Cfg) []QRow {
 	if c.o.Hops && cfg.MaxHops > 0 && c.Chance(1, 3) {
 		shape = 12 // pages with outlinks matter whenever hops are allowed
 	}
+	if c.o.Prop == "C06" && c.o.Hops && cfg.MaxRedirect >= 1 && c.Chance(1, 6) {
+		shape = 15 // a seed that is itself some hops away and redirects: the target inherits those hops
+	}
 	if c.o.Prop == "C02" && cfg.MaxRetry > 0 && c.Chance(1, 4) {
 		shape = 7 // every attempt's response is a capture of its own: retried URLs matter for "captured before finished"
 	}
@@ -455,6 +458,35 @@ func (c *crawlGen) seed(cfg *Cfg) []QRow {
 			hub.Resp[0].Headers = append(hub.Resp[0].Headers, [2]string{"Link", "<" + URL(host, op) + `>; rel="next"`})
 		}
 		return []QRow{c.row(v)}
+	case 15: // a queue row that already carries hops (0 .. max-hops+1), redirecting once or twice to a hub page with outlinks
+		base := c.Name("hop")
+		v := URL(host, "/"+base+"/from")
+		nred := 1
+		if cfg.MaxRedirect >= 2 && c.Chance(1, 2) {
+			nred = 2
+		}
+		cur := "/" + base + "/from"
+		for i := 0; i < nred; i++ {
+			next := fmt.Sprintf("/%s/to%d/", base, i)
+			loc := next
+			if c.Chance(1, 3) {
+				loc = URL(host, next)
+			}
+			c.res(host, cur, v, 0, Must, Redirect(c.PickInt(301, 302, 307), loc))
+			cur = next
+		}
+		var outs []string
+		for i, n := 0, 1+c.N(3); i < n; i++ {
+			op := "/" + c.Name("far") + ".html"
+			c.res(host, op, "", 0, May, OK("text/html", Lit("<html><body>far "+c.Name("l")+"</body></html>")))
+			outs = append(outs, op)
+		}
+		c.reliable = true
+		c.page(host, cur, v, c.N(2), cfg, outs)
+		c.reliable = false
+		r := c.row(v)
+		r.Hops = c.N(cfg.MaxHops + 2)
+		return []QRow{r}
 	case 14: // endlessly nested JSON resources, optionally each behind a redirect: only three levels below the page may be fetched
 		p := "/" + c.Name("deep") + "/index.html"
 		v := URL(host, p)
